@@ -1,6 +1,1119 @@
-//! C21 — not built yet.
-use vcommon::Args;
+//! C21 — match rules select exactly the messages the specification says.
+//!
+//! Space: every rule of a product of per-key option sets, built through `MatchRule::builder()`,
+//! against every message of a product of near-miss header values and bodies, built through
+//! `zbus::Message::signal/method_call(..).build(&body)`.
+//!
+//! Oracle: `rule.matches(&msg)` == `refmatch` (conjunction of the per-key semantics of the
+//! specification); a well-known sender in the rule and a well-known destination in the message
+//! cannot be resolved locally (documented exception) and are treated as matching.
+//!
+//! Structure: part 1 evaluates every single-key rule against every message (this is where a wrong
+//! per-key semantics shows, and it gives each defect a narrow identity); part 2 evaluates the
+//! product. A product disagreement that equals the conjunction of zbus's own single-key answers
+//! is already explained by part 1 and only counted; one that does not is reported as a
+//! key-interaction violation after greedy minimisation of the rule.
 
-pub fn main(_args: &Args) -> i32 {
-    vcommon::machinery_failure("C21: check not built yet")
+use std::{
+    collections::{BTreeMap, BTreeSet},
+    sync::Mutex,
+};
+
+use serde_json::{json, Value as J};
+use vcommon::{catch, enumerate, hash64, machinery_failure, par_for, Args, Report, Tier, Violation};
+use zbus::{
+    message::{Message, Type},
+    zvariant::{ObjectPath, StructureBuilder, Value},
+    MatchRule,
+};
+
+use crate::refmatch::{self, Key, MType, Owner, RArg, RMsg, RRule, V3};
+
+// ---------------------------------------------------------------------------------------------
+// descriptors
+
+#[derive(Clone, Debug, PartialEq, Eq, Hash)]
+pub enum BArg {
+    S(String),
+    O(String),
+    U(u32),
+    /// a variant holding a string
+    V(String),
+}
+
+impl BArg {
+    fn kind(&self) -> &'static str {
+        match self {
+            BArg::S(_) => "s",
+            BArg::O(_) => "o",
+            BArg::U(_) => "u",
+            BArg::V(_) => "v",
+        }
+    }
+    fn to_json(&self) -> J {
+        match self {
+            BArg::S(s) => json!({"s": s}),
+            BArg::O(s) => json!({"o": s}),
+            BArg::U(u) => json!({"u": u}),
+            BArg::V(s) => json!({"v": s}),
+        }
+    }
+    fn from_json(v: &J) -> BArg {
+        if let Some(s) = v["s"].as_str() {
+            BArg::S(s.into())
+        } else if let Some(s) = v["o"].as_str() {
+            BArg::O(s.into())
+        } else if let Some(s) = v["v"].as_str() {
+            BArg::V(s.into())
+        } else {
+            BArg::U(v["u"].as_u64().unwrap_or(0) as u32)
+        }
+    }
+}
+
+#[derive(Clone, Debug, PartialEq, Eq, Hash)]
+pub struct MsgDesc {
+    pub mtype: MType,
+    pub sender: Option<String>,
+    pub interface: Option<String>,
+    pub member: String,
+    pub path: String,
+    pub destination: Option<String>,
+    pub body: Vec<BArg>,
+}
+
+impl MsgDesc {
+    pub fn to_rmsg(&self) -> RMsg {
+        RMsg {
+            mtype: self.mtype,
+            sender: self.sender.clone(),
+            interface: self.interface.clone(),
+            member: Some(self.member.clone()),
+            path: Some(self.path.clone()),
+            destination: self.destination.clone(),
+            args: self
+                .body
+                .iter()
+                .map(|a| match a {
+                    BArg::S(s) => RArg::Str(s.clone()),
+                    BArg::O(s) => RArg::Path(s.clone()),
+                    _ => RArg::Other,
+                })
+                .collect(),
+        }
+    }
+    pub fn to_json(&self) -> J {
+        json!({
+            "type": self.mtype.as_str(),
+            "sender": self.sender,
+            "interface": self.interface,
+            "member": self.member,
+            "path": self.path,
+            "destination": self.destination,
+            "body": self.body.iter().map(|a| a.to_json()).collect::<Vec<_>>(),
+        })
+    }
+    pub fn from_json(v: &J) -> MsgDesc {
+        let s = |k: &str| v[k].as_str().map(|x| x.to_string());
+        MsgDesc {
+            mtype: v["type"].as_str().and_then(MType::parse).unwrap_or(MType::Signal),
+            sender: s("sender"),
+            interface: s("interface"),
+            member: s("member").unwrap_or_else(|| "A".into()),
+            path: s("path").unwrap_or_else(|| "/".into()),
+            destination: s("destination"),
+            body: v["body"]
+                .as_array()
+                .map(|a| a.iter().map(BArg::from_json).collect())
+                .unwrap_or_default(),
+        }
+    }
+    fn body_signature(&self) -> String {
+        self.body.iter().map(|a| a.kind()).collect()
+    }
+}
+
+/// Build the real message through the public builder API.
+pub fn build_msg(d: &MsgDesc) -> Result<Message, String> {
+    let e = |e: zbus::Error| e.to_string();
+    let mut b = match d.mtype {
+        MType::Signal => Message::signal(
+            d.path.as_str(),
+            d.interface.as_deref().ok_or("a signal needs an interface")?,
+            d.member.as_str(),
+        )
+        .map_err(e)?,
+        MType::MethodCall => {
+            let b = Message::method_call(d.path.as_str(), d.member.as_str()).map_err(e)?;
+            match &d.interface {
+                Some(i) => b.interface(i.as_str()).map_err(e)?,
+                None => b,
+            }
+        }
+        _ => return Err("only signals and method calls are generated".into()),
+    };
+    if let Some(s) = &d.sender {
+        b = b.sender(s.as_str()).map_err(e)?;
+    }
+    if let Some(x) = &d.destination {
+        b = b.destination(x.as_str()).map_err(e)?;
+    }
+    if d.body.is_empty() {
+        return b.build(&()).map_err(e);
+    }
+    let mut sb = StructureBuilder::new();
+    for a in &d.body {
+        sb = match a {
+            BArg::S(s) => sb.add_field(s.clone()),
+            BArg::O(p) => sb.add_field(ObjectPath::try_from(p.clone()).map_err(|e| e.to_string())?),
+            BArg::U(u) => sb.add_field(*u),
+            BArg::V(s) => sb.append_field(Value::Value(Box::new(Value::from(s.clone())))),
+        };
+    }
+    let st = sb.build().map_err(|e| e.to_string())?;
+    b.build(&st).map_err(e)
+}
+
+fn ztype(t: MType) -> Type {
+    match t {
+        MType::MethodCall => Type::MethodCall,
+        MType::MethodReturn => Type::MethodReturn,
+        MType::Error => Type::Error,
+        MType::Signal => Type::Signal,
+    }
+}
+
+/// Build the real rule through the public builder API.
+pub fn build_rule(r: &RRule) -> Result<MatchRule<'static>, String> {
+    let e = |e: zbus::Error| e.to_string();
+    let mut b = MatchRule::builder();
+    if let Some(t) = r.msg_type {
+        b = b.msg_type(ztype(t));
+    }
+    if let Some(s) = &r.sender {
+        b = b.sender(s.clone()).map_err(e)?;
+    }
+    if let Some(s) = &r.interface {
+        b = b.interface(s.clone()).map_err(e)?;
+    }
+    if let Some(s) = &r.member {
+        b = b.member(s.clone()).map_err(e)?;
+    }
+    if let Some(s) = &r.path {
+        b = b.path(s.clone()).map_err(e)?;
+    }
+    if let Some(s) = &r.path_namespace {
+        b = b.path_namespace(s.clone()).map_err(e)?;
+    }
+    if let Some(s) = &r.destination {
+        b = b.destination(s.clone()).map_err(e)?;
+    }
+    for (i, v) in &r.args {
+        b = b.arg(*i, v.clone()).map_err(e)?;
+    }
+    for (i, v) in &r.arg_paths {
+        b = b.arg_path(*i, v.clone()).map_err(e)?;
+    }
+    if let Some(s) = &r.arg0namespace {
+        b = b.arg0ns(s.clone()).map_err(e)?;
+    }
+    Ok(b.build())
+}
+
+/// 0 = no match, 1 = match, 2 = Err, 3 = panic
+fn zeval(rule: &MatchRule<'_>, msg: &Message) -> u8 {
+    match catch(|| rule.matches(msg)) {
+        Ok(Ok(false)) => 0,
+        Ok(Ok(true)) => 1,
+        Ok(Err(_)) => 2,
+        Err(_) => 3,
+    }
+}
+
+fn zname(z: u8) -> &'static str {
+    match z {
+        0 => "no-match",
+        1 => "match",
+        2 => "error",
+        _ => "panic",
+    }
+}
+
+// ---------------------------------------------------------------------------------------------
+// the space
+
+#[derive(Clone, Debug)]
+pub enum Opt {
+    Type(MType),
+    Sender(String),
+    Interface(String),
+    Member(String),
+    Path(String),
+    PathNs(String),
+    Dest(String),
+    Arg(u8, String),
+    ArgPath(u8, String),
+    Arg0Ns(String),
+}
+
+impl Opt {
+    pub fn apply(&self, r: &mut RRule) {
+        match self {
+            Opt::Type(t) => r.msg_type = Some(*t),
+            Opt::Sender(s) => r.sender = Some(s.clone()),
+            Opt::Interface(s) => r.interface = Some(s.clone()),
+            Opt::Member(s) => r.member = Some(s.clone()),
+            Opt::Path(s) => r.path = Some(s.clone()),
+            Opt::PathNs(s) => r.path_namespace = Some(s.clone()),
+            Opt::Dest(s) => r.destination = Some(s.clone()),
+            Opt::Arg(i, s) => {
+                r.args.insert(*i, s.clone());
+            }
+            Opt::ArgPath(i, s) => {
+                r.arg_paths.insert(*i, s.clone());
+            }
+            Opt::Arg0Ns(s) => r.arg0namespace = Some(s.clone()),
+        }
+    }
+    pub fn key(&self) -> Key {
+        match self {
+            Opt::Type(_) => Key::Type,
+            Opt::Sender(_) => Key::Sender,
+            Opt::Interface(_) => Key::Interface,
+            Opt::Member(_) => Key::Member,
+            Opt::Path(_) => Key::Path,
+            Opt::PathNs(_) => Key::PathNamespace,
+            Opt::Dest(_) => Key::Destination,
+            Opt::Arg(i, _) => Key::Arg(*i),
+            Opt::ArgPath(i, _) => Key::ArgPath(*i),
+            Opt::Arg0Ns(_) => Key::Arg0Namespace,
+        }
+    }
+}
+
+pub const WK_SENDER: &str = "a.wk";
+pub const WK_DEST: &str = "a.wkd";
+pub const IFACE_A: &str = "i.A";
+pub const IFACE_B: &str = "i.B";
+
+/// Rule key slots; option 0 of every slot is "key absent".
+pub fn rule_slots() -> Vec<Vec<Option<Opt>>> {
+    let s = |x: &str| x.to_string();
+    vec![
+        vec![None, Some(Opt::Type(MType::Signal)), Some(Opt::Type(MType::MethodCall))],
+        vec![None, Some(Opt::Sender(s(":1.1"))), Some(Opt::Sender(s(WK_SENDER)))],
+        vec![None, Some(Opt::Interface(s(IFACE_A))), Some(Opt::Interface(s(IFACE_B)))],
+        vec![None, Some(Opt::Member(s("A"))), Some(Opt::Member(s("B")))],
+        vec![
+            None,
+            Some(Opt::Path(s("/a"))),
+            Some(Opt::Path(s("/a/b"))),
+            Some(Opt::PathNs(s("/a"))),
+            Some(Opt::PathNs(s("/"))),
+        ],
+        vec![None, Some(Opt::Dest(s(":1.2")))],
+        vec![None, Some(Opt::Arg(0, s("x"))), Some(Opt::Arg(0, s("")))],
+        vec![None, Some(Opt::Arg(1, s("x")))],
+        vec![None, Some(Opt::ArgPath(0, s("/a/b"))), Some(Opt::ArgPath(0, s("/")))],
+        vec![None, Some(Opt::Arg0Ns(s("a.b")))],
+    ]
+}
+
+/// Rule values the specification allows but the builder refuses (recorded, not judged: the
+/// property quantifies over rules built through the API).
+fn unbuildable_probe(report: &Report) {
+    let mut r = RRule::default();
+    r.arg_paths.insert(0, "/a/".into());
+    match build_rule(&r) {
+        Ok(_) => report.outcome("builder: arg0path='/a/' accepted"),
+        Err(_) => {
+            report.outcome("builder: arg0path='/a/' refused (trailing slash is not an object path)");
+            report.note("argNpath values with a trailing slash (specification example arg0path='/aa/bb/') cannot be expressed through MatchRule::builder(): arg_path takes an ObjectPath; such rules are outside the enumerated space");
+        }
+    }
+}
+
+pub fn bodies() -> Vec<Vec<BArg>> {
+    let s = |x: &str| BArg::S(x.to_string());
+    let o = |x: &str| BArg::O(x.to_string());
+    vec![
+        vec![],
+        vec![s("x")],
+        vec![s("xy")],
+        vec![s("")],
+        vec![o("/a/b")],
+        vec![o("/")],
+        vec![o("/a/b/c")],
+        vec![s("/a/")],
+        vec![s("/a/b")],
+        vec![s("/a/b/c")],
+        vec![s("/a/b/")],
+        vec![s("/")],
+        vec![BArg::U(1)],
+        vec![BArg::V("x".into())],
+        vec![s("a.b.c")],
+        vec![s("a.bc")],
+        vec![s("a.b")],
+        vec![s("x"), s("x")],
+        vec![s("x"), s("y")],
+        vec![BArg::U(1), s("x")],
+        vec![s("x"), BArg::U(1)],
+        vec![s("a.b.c"), s("x")],
+        vec![s("/a/b"), s("x")],
+    ]
+}
+
+pub fn messages() -> Vec<MsgDesc> {
+    let senders = [None, Some(":1.1"), Some(":1.9")];
+    let members = ["A", "B"];
+    let paths = ["/", "/a", "/ab", "/a/b", "/a/bc"];
+    let dests = [None, Some(":1.2"), Some(":1.3"), Some(WK_DEST)];
+    let bodies = bodies();
+    let mut out = vec![];
+    for mtype in [MType::Signal, MType::MethodCall] {
+        let ifaces: &[Option<&str>] = if mtype == MType::Signal {
+            &[Some(IFACE_A), Some(IFACE_B)]
+        } else {
+            &[Some(IFACE_A), Some(IFACE_B), None]
+        };
+        for sender in senders {
+            for iface in ifaces {
+                for member in members {
+                    for path in paths {
+                        for dest in dests {
+                            for body in &bodies {
+                                out.push(MsgDesc {
+                                    mtype,
+                                    sender: sender.map(String::from),
+                                    interface: iface.map(String::from),
+                                    member: member.into(),
+                                    path: path.into(),
+                                    destination: dest.map(String::from),
+                                    body: body.clone(),
+                                });
+                            }
+                        }
+                    }
+                }
+            }
+        }
+    }
+    out
+}
+
+/// The harness must not misrepresent the message: what was asked for is what the header says.
+fn sanity(d: &MsgDesc, m: &Message) -> Result<(), String> {
+    let h = m.header();
+    let same = |a: Option<String>, b: &Option<String>| a == *b;
+    if ztype(d.mtype) != m.message_type()
+        || !same(h.sender().map(|s| s.to_string()), &d.sender)
+        || !same(h.interface().map(|s| s.to_string()), &d.interface)
+        || !same(h.member().map(|s| s.to_string()), &Some(d.member.clone()))
+        || !same(h.path().map(|s| s.to_string()), &Some(d.path.clone()))
+        || !same(h.destination().map(|s| s.to_string()), &d.destination)
+        || m.body().signature().to_string_no_parens() != d.body_signature()
+    {
+        return Err(format!(
+            "built message does not read back as described: {} (body signature {})",
+            d.to_json(),
+            m.body().signature()
+        ));
+    }
+    Ok(())
+}
+
+// ---------------------------------------------------------------------------------------------
+// features
+
+fn relation(opt: &Opt, m: &MsgDesc) -> BTreeMap<String, String> {
+    let mut f = BTreeMap::new();
+    let mut put = |k: &str, v: &str| {
+        f.insert(k.to_string(), v.to_string());
+    };
+    let arg_kind = |i: u8| m.body.get(i as usize).map(|a| a.kind()).unwrap_or("missing");
+    let arg_text = |i: u8| match m.body.get(i as usize) {
+        Some(BArg::S(s)) | Some(BArg::O(s)) => Some(s.as_str()),
+        _ => None,
+    };
+    match opt {
+        Opt::Type(t) => put("relation", if *t == m.mtype { "equal" } else { "different" }),
+        Opt::Sender(s) => {
+            put("rule_name", if refmatch::is_unique(s) { "unique" } else { "well-known" });
+            put(
+                "relation",
+                match &m.sender {
+                    None => "msg-has-no-sender",
+                    Some(x) if x == s => "equal",
+                    Some(_) => "different",
+                },
+            );
+        }
+        Opt::Interface(s) => put(
+            "relation",
+            match &m.interface {
+                None => "msg-has-no-interface",
+                Some(x) if x == s => "equal",
+                Some(_) => "different",
+            },
+        ),
+        Opt::Member(s) => put("relation", if *s == m.member { "equal" } else { "different" }),
+        Opt::Path(s) => put("relation", if *s == m.path { "equal" } else { "different" }),
+        Opt::PathNs(ns) => put(
+            "relation",
+            if m.path == *ns {
+                "equal"
+            } else if refmatch::path_in_namespace(&m.path, ns) {
+                "below"
+            } else if m.path.starts_with(ns.as_str()) {
+                "sibling-sharing-string-prefix"
+            } else {
+                "unrelated"
+            },
+        ),
+        Opt::Dest(d) => put(
+            "relation",
+            match &m.destination {
+                None => "msg-has-no-destination",
+                Some(x) if x == d => "equal",
+                Some(x) if refmatch::is_unique(x) => "other-unique",
+                Some(_) => "well-known",
+            },
+        ),
+        Opt::Arg(i, v) => {
+            put("arg_type", arg_kind(*i));
+            put(
+                "relation",
+                match arg_text(*i) {
+                    Some(t) if t == v => "equal",
+                    Some(_) => "different",
+                    None => "no-text",
+                },
+            );
+        }
+        Opt::ArgPath(i, v) => {
+            put("arg_type", arg_kind(*i));
+            put(
+                "relation",
+                match arg_text(*i) {
+                    Some(t) if t == v => "equal",
+                    Some(t) if v.ends_with('/') && t.starts_with(v.as_str()) => {
+                        "rule-ends-with-slash-and-prefixes-arg"
+                    }
+                    Some(t) if t.ends_with('/') && v.starts_with(t) => {
+                        "arg-ends-with-slash-and-prefixes-rule"
+                    }
+                    Some(_) => "unrelated",
+                    None => "no-text",
+                },
+            );
+        }
+        Opt::Arg0Ns(ns) => {
+            put("arg_type", arg_kind(0));
+            put("n_args", if m.body.len() <= 1 { "at-most-1" } else { "2-or-more" });
+            put(
+                "relation",
+                match arg_text(0) {
+                    Some(t) if t == ns => "equal",
+                    Some(t) if refmatch::in_name_namespace(t, ns) => "below",
+                    Some(t) if t.starts_with(ns.as_str()) => "sibling-sharing-string-prefix",
+                    Some(_) => "unrelated",
+                    None => "no-text",
+                },
+            );
+        }
+    }
+    f
+}
+
+// ---------------------------------------------------------------------------------------------
+
+struct Ctx {
+    slots: Vec<Vec<Option<Opt>>>,
+    descs: Vec<MsgDesc>,
+    msgs: Vec<Message>,
+    /// [slot][opt] -> per message reference verdict (0 no, 1 yes, 2 unresolved); empty for "absent"
+    ref_tab: Vec<Vec<Vec<u8>>>,
+    /// [slot][opt] -> per message zbus verdict for the single-key rule
+    zb_tab: Vec<Vec<Vec<u8>>>,
+}
+
+fn single_rule(opt: &Opt) -> RRule {
+    let mut r = RRule::default();
+    opt.apply(&mut r);
+    r
+}
+
+fn build_ctx() -> Ctx {
+    let slots = rule_slots();
+    let descs = messages();
+    let msgs: Vec<Message> = descs
+        .iter()
+        .map(|d| {
+            let m = build_msg(d).unwrap_or_else(|e| machinery_failure(&format!("cannot build message {}: {e}", d.to_json())));
+            if let Err(e) = sanity(d, &m) {
+                machinery_failure(&e);
+            }
+            m
+        })
+        .collect();
+    let rmsgs: Vec<RMsg> = descs.iter().map(|d| d.to_rmsg()).collect();
+    let mut ref_tab = vec![];
+    let mut zb_tab = vec![];
+    for slot in &slots {
+        let mut rt = vec![];
+        let mut zt = vec![];
+        for opt in slot {
+            match opt {
+                None => {
+                    rt.push(vec![]);
+                    zt.push(vec![]);
+                }
+                Some(o) => {
+                    let rr = single_rule(o);
+                    let zr = build_rule(&rr)
+                        .unwrap_or_else(|e| machinery_failure(&format!("cannot build rule {}: {e}", refmatch::print(&rr))));
+                    rt.push(
+                        rmsgs
+                            .iter()
+                            .map(|m| match refmatch::key_matches(&rr, o.key(), m, &refmatch::nobody_knows) {
+                                V3::No => 0,
+                                V3::Yes => 1,
+                                V3::Unresolved => 2,
+                            })
+                            .collect(),
+                    );
+                    zt.push(msgs.iter().map(|m| zeval(&zr, m)).collect());
+                }
+            }
+        }
+        ref_tab.push(rt);
+        zb_tab.push(zt);
+    }
+    Ctx {
+        slots,
+        descs,
+        msgs,
+        ref_tab,
+        zb_tab,
+    }
+}
+
+fn rule_of(ctx: &Ctx, idx: &[usize]) -> RRule {
+    let mut r = RRule::default();
+    for (s, i) in idx.iter().enumerate() {
+        if let Some(o) = &ctx.slots[s][*i] {
+            o.apply(&mut r);
+        }
+    }
+    r
+}
+
+fn expected_text(ctx: &Ctx, idx: &[usize], mi: usize) -> String {
+    let mut parts = vec![];
+    for (s, i) in idx.iter().enumerate() {
+        if let Some(o) = &ctx.slots[s][*i] {
+            let v = ctx.ref_tab[s][*i][mi];
+            parts.push(format!(
+                "{}:{}",
+                o.key().name(),
+                match v {
+                    0 => "no",
+                    1 => "yes",
+                    _ => "unresolvable-name",
+                }
+            ));
+        }
+    }
+    parts.join(" ")
+}
+
+fn part1(ctx: &Ctx, report: &Report) {
+    for (s, slot) in ctx.slots.iter().enumerate() {
+        for (oi, opt) in slot.iter().enumerate() {
+            let Some(o) = opt else { continue };
+            let rr = single_rule(o);
+            let mut classes: BTreeSet<u64> = BTreeSet::new();
+            for mi in 0..ctx.msgs.len() {
+                report.eval(1);
+                let rv = ctx.ref_tab[s][oi][mi];
+                let z = ctx.zb_tab[s][oi][mi];
+                let exp = (rv != 0) as u8;
+                let rel = relation(o, &ctx.descs[mi]);
+                classes.insert(hash64(&(s, oi, &rel, rv)));
+                if z == exp {
+                    report.outcome(match rv {
+                        0 => "single-key: agree no-match",
+                        1 => "single-key: agree match",
+                        _ => "single-key: well-known name unresolvable locally, treated as match",
+                    });
+                    continue;
+                }
+                report.outcome(if z > 1 {
+                    "single-key: zbus error/panic"
+                } else if z == 1 {
+                    "single-key: zbus matches, specification does not"
+                } else {
+                    "single-key: specification matches, zbus does not"
+                });
+                let mut v = Violation::new(
+                    "matches-iff-specification",
+                    format!(
+                        "rule {} vs message {}: specification says {}, MatchRule::matches says {}",
+                        refmatch::print(&rr),
+                        ctx.descs[mi].to_json(),
+                        if exp == 1 { "match" } else { "no-match" },
+                        zname(z)
+                    ),
+                    json!({"rule": refmatch::rule_to_json(&rr), "msg": ctx.descs[mi].to_json()}),
+                )
+                .feat("kind", "single-key")
+                .feat("key", o.key().family())
+                .feat("expected", if exp == 1 { "match" } else { "no-match" })
+                .feat("observed", zname(z));
+                for (k, val) in rel {
+                    v = v.feat(&k, val);
+                }
+                report.violation(v);
+            }
+            report.nontrivial_many(classes);
+        }
+    }
+}
+
+/// Greedy minimisation of a key-interaction disagreement: drop keys while zbus still differs from
+/// both the reference and the conjunction of its own single-key answers.
+fn minimise(ctx: &Ctx, idx: &[usize], mi: usize) -> Vec<usize> {
+    let mut cur = idx.to_vec();
+    let bad = |ix: &[usize]| -> bool {
+        let (exp, zand) = conj(ctx, ix, mi);
+        let r = rule_of(ctx, ix);
+        let Ok(zr) = build_rule(&r) else { return false };
+        let z = zeval(&zr, &ctx.msgs[mi]);
+        z != exp && z != zand
+    };
+    loop {
+        let mut changed = false;
+        for s in 0..cur.len() {
+            if cur[s] != 0 {
+                let save = cur[s];
+                cur[s] = 0;
+                if bad(&cur) {
+                    changed = true;
+                } else {
+                    cur[s] = save;
+                }
+            }
+        }
+        if !changed {
+            return cur;
+        }
+    }
+}
+
+/// (expected, conjunction of zbus single-key verdicts) for a rule index vector and a message.
+#[inline]
+fn conj(ctx: &Ctx, idx: &[usize], mi: usize) -> (u8, u8) {
+    let mut exp = 1u8;
+    let mut zand = 1u8;
+    for (s, i) in idx.iter().enumerate() {
+        if *i == 0 {
+            continue;
+        }
+        if ctx.ref_tab[s][*i][mi] == 0 {
+            exp = 0;
+        }
+        let z = ctx.zb_tab[s][*i][mi];
+        if z > 1 {
+            zand = zand.max(z);
+        } else if z == 0 && zand <= 1 {
+            zand = 0;
+        }
+    }
+    (exp, zand)
+}
+
+fn part2(ctx: &Ctx, report: &Report, tier: Tier, full: bool) {
+    let dims: Vec<usize> = ctx.slots.iter().map(|s| s.len()).collect();
+    let n_rules = enumerate::product_size(&dims);
+    let n_msgs = ctx.msgs.len();
+    report.set("rules", json!(n_rules));
+    report.set("messages", json!(n_msgs));
+    report.set("pairs_in_product", json!(n_rules as u64 * n_msgs as u64));
+    let max_miss: u32 = if full { u32::MAX } else { 2 };
+    let sampled = Mutex::new(0usize);
+    let _ = tier;
+    par_for(n_rules, 4, |ri| {
+        let mut idx = vec![];
+        enumerate::nth_product(&dims, ri, &mut idx);
+        let present = idx.iter().filter(|i| **i != 0).count();
+        if present < 2 {
+            return; // part 1 (and the empty rule below)
+        }
+        let rr = rule_of(ctx, &idx);
+        let zr = match build_rule(&rr) {
+            Ok(z) => z,
+            Err(e) => machinery_failure(&format!("cannot build rule {}: {e}", refmatch::print(&rr))),
+        };
+        let active: Vec<(usize, usize)> = idx.iter().enumerate().filter(|(_, i)| **i != 0).map(|(s, i)| (s, *i)).collect();
+        let mut masks: BTreeSet<u64> = BTreeSet::new();
+        let (mut n_eval, mut n_skip) = (0u64, 0u64);
+        let mut oc = [0u64; 6];
+        for mi in 0..n_msgs {
+            // number of keys the reference says do not match
+            let mut miss = 0u32;
+            let mut mask = 0u64;
+            let mut unresolved = false;
+            for (b, (s, i)) in active.iter().enumerate() {
+                match ctx.ref_tab[*s][*i][mi] {
+                    0 => {
+                        miss += 1;
+                        mask |= 1 << b;
+                    }
+                    2 => unresolved = true,
+                    _ => {}
+                }
+            }
+            if miss > max_miss {
+                n_skip += 1;
+                continue;
+            }
+            n_eval += 1;
+            masks.insert(hash64(&(ri, mask)));
+            let exp = (miss == 0) as u8;
+            let z = zeval(&zr, &ctx.msgs[mi]);
+            if z == exp {
+                oc[if exp == 0 {
+                    0
+                } else if unresolved {
+                    2
+                } else {
+                    1
+                }] += 1;
+                if exp == 1 || miss == 1 {
+                    let mut g = sampled.lock().unwrap();
+                    if *g < 12 && (ri + mi) % 977 == 0 {
+                        *g += 1;
+                        report.sample(json!({"rule": refmatch::print(&rr), "msg": ctx.descs[mi].to_json(),
+                            "reference": expected_text(ctx, &idx, mi), "zbus": zname(z)}));
+                    }
+                }
+                continue;
+            }
+            let (_, zand) = conj(ctx, &idx, mi);
+            if z == zand {
+                // explained by the single-key disagreements reported in part 1
+                oc[3] += 1;
+                continue;
+            }
+            oc[4] += 1;
+            let min = minimise(ctx, &idx, mi);
+            let mr = rule_of(ctx, &min);
+            let keys: Vec<String> = mr.keys().iter().map(|k| k.family().to_string()).collect();
+            let zmin = build_rule(&mr).map(|r| zeval(&r, &ctx.msgs[mi])).unwrap_or(2);
+            let (emin, zandmin) = conj(ctx, &min, mi);
+            report.violation(
+                Violation::new(
+                    "matches-iff-specification",
+                    format!(
+                        "rule {} vs message {}: per-key reference verdicts [{}] so the specification says {}; MatchRule::matches says {} although its answers for the same keys taken one at a time combine to {}",
+                        refmatch::print(&mr),
+                        ctx.descs[mi].to_json(),
+                        expected_text(ctx, &min, mi),
+                        if emin == 1 { "match" } else { "no-match" },
+                        zname(zmin),
+                        zname(zandmin),
+                    ),
+                    json!({"rule": refmatch::rule_to_json(&mr), "msg": ctx.descs[mi].to_json()}),
+                )
+                .feat("kind", "key-interaction")
+                .feat("keys", keys.join("+"))
+                .feat("expected", if emin == 1 { "match" } else { "no-match" })
+                .feat("observed", zname(zmin)),
+            );
+        }
+        report.eval(n_eval);
+        report.add("pairs_skipped_more_than_2_keys_from_a_match", n_skip);
+        report.nontrivial_many(masks);
+        for (i, name) in [
+            "product: agree no-match",
+            "product: agree match",
+            "product: agree match modulo unresolvable well-known name",
+            "product: disagreement explained by single-key findings",
+            "product: key-interaction disagreement",
+        ]
+        .iter()
+        .enumerate()
+        {
+            if oc[i] > 0 {
+                report.outcome_n(name, oc[i]);
+            }
+        }
+    });
+    // the empty rule matches everything
+    let empty = build_rule(&RRule::default()).unwrap_or_else(|e| machinery_failure(&e));
+    for (mi, m) in ctx.msgs.iter().enumerate() {
+        report.eval(1);
+        let z = zeval(&empty, m);
+        if z != 1 {
+            report.violation(
+                Violation::new(
+                    "matches-iff-specification",
+                    format!("the empty rule vs {}: MatchRule::matches says {}", ctx.descs[mi].to_json(), zname(z)),
+                    json!({"rule": refmatch::rule_to_json(&RRule::default()), "msg": ctx.descs[mi].to_json()}),
+                )
+                .feat("kind", "empty-rule")
+                .feat("observed", zname(z)),
+            );
+        }
+    }
+}
+
+// ---------------------------------------------------------------------------------------------
+// audit of refmatch against the reference bus daemon
+
+fn audit(report: &Report) -> J {
+    use refmatch::audit::{Bus, Pair};
+    let lib = match refmatch::ffi::Lib::load() {
+        Ok(l) => l,
+        Err(e) => machinery_failure(&format!("C21 audit: {e}")),
+    };
+    let bus = Bus::start("c21-bus").unwrap_or_else(|e| machinery_failure(&format!("C21 audit: {e}")));
+    let pair = Pair::new(&lib, &bus).unwrap_or_else(|e| machinery_failure(&format!("C21 audit: {e}")));
+    let s_name = pair.s.unique.clone();
+    let t_name = pair.t.unique.clone();
+    match pair.s.request_name(WK_SENDER) {
+        Ok(1) => {}
+        other => machinery_failure(&format!("C21 audit: RequestName gave {other:?}")),
+    }
+    let owners = |n: &str| {
+        if n == WK_SENDER {
+            Owner::Unique(s_name.clone())
+        } else {
+            Owner::NoOwner
+        }
+    };
+    // rules: every single-key option of the C21 space, names mapped onto the live connections,
+    // plus two-key combinations of neighbours
+    let map_name = |n: &str| -> String {
+        match n {
+            ":1.1" => s_name.clone(),
+            ":1.2" => s_name.clone(),
+            other => other.to_string(),
+        }
+    };
+    let mut rules: Vec<RRule> = vec![RRule::default()];
+    let mut singles: Vec<RRule> = vec![];
+    for slot in rule_slots() {
+        for o in slot.into_iter().flatten() {
+            let o = match o {
+                Opt::Sender(s) => Opt::Sender(map_name(&s)),
+                Opt::Dest(s) => Opt::Dest(map_name(&s)),
+                o => o,
+            };
+            singles.push(single_rule(&o));
+        }
+    }
+    // extra single-key rules only the daemon can take
+    for extra in [
+        Opt::Sender(t_name.clone()),
+        Opt::Sender("a.unowned".into()),
+        Opt::Dest(t_name.clone()),
+        Opt::Dest(WK_SENDER.into()),
+        Opt::ArgPath(0, "/a/".into()),
+        Opt::ArgPath(1, "/a/".into()),
+        Opt::Arg(1, "y".into()),
+        Opt::PathNs("/a/b".into()),
+    ] {
+        singles.push(single_rule(&extra));
+    }
+    rules.extend(singles.iter().cloned());
+    for i in 0..singles.len() {
+        for j in (i + 1)..singles.len().min(i + 4) {
+            // merge two single-key rules when they do not collide
+            let (a, b) = (&singles[i], &singles[j]);
+            let ka = a.keys()[0];
+            let kb = b.keys()[0];
+            let same_arg = |x: Key, y: Key| {
+                let ix = |k: Key| match k {
+                    Key::Arg(i) | Key::ArgPath(i) => Some(i),
+                    Key::Arg0Namespace => Some(0),
+                    _ => None,
+                };
+                ix(x).is_some() && ix(x) == ix(y)
+            };
+            let path_pair = matches!(ka, Key::Path | Key::PathNamespace) && matches!(kb, Key::Path | Key::PathNamespace);
+            if ka == kb || same_arg(ka, kb) || path_pair {
+                continue;
+            }
+            let mut m = a.clone();
+            for k in b.keys() {
+                let o = b.only(k);
+                m.msg_type = m.msg_type.or(o.msg_type);
+                m.sender = m.sender.or(o.sender);
+                m.interface = m.interface.or(o.interface);
+                m.member = m.member.or(o.member);
+                m.path = m.path.or(o.path);
+                m.path_namespace = m.path_namespace.or(o.path_namespace);
+                m.destination = m.destination.or(o.destination);
+                m.args.extend(o.args);
+                m.arg_paths.extend(o.arg_paths);
+                m.arg0namespace = m.arg0namespace.or(o.arg0namespace);
+            }
+            rules.push(m);
+        }
+    }
+    // messages: full header product with three bodies + every body with a few headers.
+    // A method call without destination is consumed by the daemon itself and an empty string
+    // argument makes the daemon's argNpath code read before the buffer: both left out (mask).
+    let mut msgs: Vec<RMsg> = vec![];
+    let all_bodies = bodies();
+    let hdr_bodies = [0usize, 1, 4];
+    for mtype in [MType::Signal, MType::MethodCall] {
+        for iface in [IFACE_A, IFACE_B] {
+            for member in ["A", "B"] {
+                for path in ["/", "/a", "/ab", "/a/b", "/a/bc"] {
+                    for dest in [None, Some(s_name.as_str()), Some(t_name.as_str()), Some(WK_SENDER)] {
+                        if mtype == MType::MethodCall && dest.is_none() {
+                            continue;
+                        }
+                        for (bi, body) in all_bodies.iter().enumerate() {
+                            let few_hdr = iface == IFACE_A && member == "A" && path == "/a/b" && (dest.is_none() || dest == Some(s_name.as_str()));
+                            if !(hdr_bodies.contains(&bi) || few_hdr) {
+                                continue;
+                            }
+                            if body.iter().any(|a| matches!(a, BArg::S(s) if s.is_empty())) {
+                                continue;
+                            }
+                            let d = MsgDesc {
+                                mtype,
+                                sender: Some(s_name.clone()),
+                                interface: Some(iface.into()),
+                                member: member.into(),
+                                path: path.into(),
+                                destination: dest.map(String::from),
+                                body: body.clone(),
+                            };
+                            msgs.push(d.to_rmsg());
+                        }
+                    }
+                }
+            }
+        }
+    }
+    let mut n = 0u64;
+    let mut n_match = 0u64;
+    for r in &rules {
+        let mut r = r.clone();
+        r.eavesdrop = Some(true);
+        let text = refmatch::print(&r);
+        // the printed form must parse back to the same rule (printer/parser self-consistency)
+        match refmatch::parse(&text, refmatch::ParseOpts::DAEMON) {
+            Ok(p) if p == r => {}
+            other => machinery_failure(&format!("C21 audit: refmatch print/parse inconsistent for {text}: {other:?}")),
+        }
+        let got = match pair.deliveries(&text, &msgs) {
+            Ok(Ok(g)) => g,
+            Ok(Err(e)) => machinery_failure(&format!("C21 audit: dbus-daemon refused rule {text}: {e}")),
+            Err(e) => machinery_failure(&format!("C21 audit: {e}")),
+        };
+        for (m, delivered) in msgs.iter().zip(got) {
+            n += 1;
+            let want = match refmatch::matches(&r, m, &owners) {
+                V3::Yes => true,
+                V3::No => false,
+                V3::Unresolved => machinery_failure("C21 audit: unresolved name with a full owner table"),
+            };
+            if want {
+                n_match += 1;
+            }
+            if want != delivered {
+                machinery_failure(&format!(
+                    "C21 audit: reference model and dbus-daemon disagree: rule {text} message {m:?}: refmatch says {want}, daemon delivered = {delivered} (S={s_name} T={t_name}, {WK_SENDER} owned by S)"
+                ));
+            }
+        }
+    }
+    let summary = json!({"rules": rules.len(), "messages": msgs.len(), "deliveries_compared": n, "of_which_matching": n_match,
+               "masked": ["method calls without destination (consumed by the daemon)", "empty string arguments (daemon argNpath reads actual[-1])", "variant arguments are sent as uint32"]});
+    report.set("audit_refmatch_vs_dbus_daemon", summary.clone());
+    report.assume("refmatch agrees with the installed dbus-daemon on the audit grid (every key option, neighbouring two-key combinations, eavesdrop='true' added to see unicast traffic)");
+    summary
+}
+
+// ---------------------------------------------------------------------------------------------
+
+fn replay(path: &str) -> i32 {
+    let v = vcommon::load_replay(path);
+    let rr = refmatch::rule_from_json(&v["replay"]["rule"]);
+    let d = MsgDesc::from_json(&v["replay"]["msg"]);
+    println!("rule (reference print): {}", refmatch::print(&rr));
+    let zr = match build_rule(&rr) {
+        Ok(z) => z,
+        Err(e) => {
+            println!("MatchRule::builder() refused the rule: {e}");
+            return 0;
+        }
+    };
+    println!("rule (zbus Display):    {zr}");
+    println!("message: {}", d.to_json());
+    let m = match build_msg(&d) {
+        Ok(m) => m,
+        Err(e) => {
+            println!("message cannot be built: {e}");
+            return 0;
+        }
+    };
+    let rm = d.to_rmsg();
+    for k in rr.keys() {
+        let sub = rr.only(k);
+        let zs = build_rule(&sub).map(|r| zname(zeval(&r, &m))).unwrap_or("unbuildable");
+        println!(
+            "  key {:16} reference: {:?}   zbus (key alone): {}",
+            k.name(),
+            refmatch::key_matches(&rr, k, &rm, &refmatch::nobody_knows),
+            zs
+        );
+    }
+    let want = refmatch::matches(&rr, &rm, &refmatch::nobody_knows);
+    let z = zeval(&zr, &m);
+    println!("reference: {want:?} (Unresolved counts as match: documented exception)");
+    println!("MatchRule::matches: {}", zname(z));
+    let exp = (want != V3::No) as u8;
+    if z == exp {
+        println!("AGREE");
+        0
+    } else {
+        println!("DISAGREE");
+        1
+    }
+}
+
+pub fn main(args: &Args) -> i32 {
+    if let Some(p) = &args.replay {
+        return replay(p);
+    }
+    let report = Report::new("C21", args.tier, args.seed, "exploration");
+    let audit_only = args.extra.iter().any(|a| a == "--audit-only");
+    if args.tier == Tier::Thorough || audit_only || args.extra.iter().any(|a| a == "--audit") {
+        let summary = audit(&report);
+        if audit_only {
+            println!("C21 audit passed: {summary}");
+            return 0;
+        }
+    }
+    unbuildable_probe(&report);
+    let ctx = build_ctx();
+    part1(&ctx, &report);
+    let full = args.tier == Tier::Thorough || args.extra.iter().any(|a| a == "--full");
+    part2(&ctx, &report, args.tier, full);
+    if !full {
+        report.note("quick tier: product pairs further than 2 keys from a match are skipped (every single-key rule is evaluated against every message); thorough evaluates the full product");
+    }
+    report.assume("zbus::Message built by the public builder reads back the requested header fields (asserted) and represents the described message");
+    report.assume("reference semantics = conjunction of the per-key rules of the specification's Match Rules section (refmatch), audited against dbus-daemon in the thorough tier");
+    report.assume("documented exception: a well-known sender in the rule or a well-known destination in the message counts as matching");
+    report.finish(
+        "rules = product of per-key option sets (built with MatchRule::builder) x messages = product of header near-misses and bodies; part 1: every single-key rule x every message; part 2: every rule with >= 2 keys x every message (quick: at most 2 keys away from a match). non-trivial case = distinct (rule, set of keys the reference says do not match) / (key option, rule-message relation class)",
+        full,
+    )
 }
